@@ -570,8 +570,81 @@ func ruleGlobals(p *Program, r *Reporter) {
 				break
 			}
 		}
+		// ... and what the variable refers to is reachable through the variable
+		// only: a map (slice, pointer) that is also stored in an object — or came
+		// from one — is used through that object without the mutex, and is shared
+		// by everything that holds such an object
 		if bad == "" {
-			r.OkNT(key, p.Pos(g.Pos()), fmt.Sprintf("written after initialisation; all %d access(es) are made while a package-level mutex is held", len(accesses)))
+			isRef := func(t types.Type) bool {
+				switch t.Underlying().(type) {
+				case *types.Map, *types.Slice, *types.Pointer, *types.Chan, *types.Signature, *types.Interface:
+					return true
+				}
+				return false
+			}
+			leak := ""
+			if isRef(deref(g.Type())) {
+				for _, acc := range gl.reads {
+					u, ok := acc.(*ssa.UnOp)
+					if !ok {
+						continue
+					}
+					for _, ref := range liveRefs(u) {
+						switch x := ref.(type) {
+						case *ssa.Store:
+							if x.Val == ssa.Value(u) {
+								leak = "its value is stored elsewhere (" + p.Pos(x.Pos()) + " in " + p.FnName(x.Parent()) + "): what it refers to is then used through that place too, without the mutex, by whoever holds it"
+							}
+						case *ssa.Return:
+							leak = "its value is returned to a caller (" + p.Pos(x.Pos()) + " in " + p.FnName(x.Parent()) + ") who uses it without the mutex"
+						case *ssa.MakeInterface, *ssa.MakeClosure:
+							leak = "its value is wrapped and handed on (" + p.Pos(ref.Pos()) + " in " + p.FnName(ref.Parent()) + ")"
+						case ssa.CallInstruction:
+							cc := x.Common()
+							if _, isBuiltin := cc.Value.(*ssa.Builtin); isBuiltin {
+								continue
+							}
+							for _, a := range cc.Args {
+								if a == ssa.Value(u) {
+									if cal := cc.StaticCallee(); cal != nil && cal.Signature.Recv() != nil && len(cc.Args) > 0 && cc.Args[0] == ssa.Value(u) {
+										continue // a method of the object itself: judged above
+									}
+									leak = "its value is passed to a function (" + p.Pos(x.Pos()) + " in " + p.FnName(x.Parent()) + ") that may keep it"
+								}
+							}
+						}
+					}
+				}
+				for _, w := range gl.writes {
+					st, ok := w.(*ssa.Store)
+					if !ok || st.Addr != ssa.Value(g) {
+						continue
+					}
+					fresh := true
+					for _, o := range origins(st.Val) {
+						switch x := o.(type) {
+						case *ssa.MakeMap, *ssa.MakeSlice, *ssa.MakeChan, *ssa.Alloc, *ssa.Const, *ssa.Call, *ssa.MakeClosure, *ssa.Function:
+						case *ssa.UnOp:
+							if gg, ok := x.X.(*ssa.Global); ok && gg == g {
+								continue
+							}
+							fresh = false
+						default:
+							fresh = false
+						}
+					}
+					if !fresh {
+						leak = "it is assigned a value that something else holds as well (" + p.Pos(st.Pos()) + " in " + p.FnName(st.Parent()) + ": a field, a parameter): what it refers to is then changed through that other holder without the mutex, and every evaluator that is given the variable's value sees those changes"
+					}
+				}
+			}
+			if leak != "" {
+				r.Fail(key, p.Pos(g.Pos()), "this package-level variable is guarded by a mutex, but "+leak+" — state of one evaluator (a function its host registered, say) becomes visible to, and races with, every other evaluator in the process")
+				continue
+			}
+		}
+		if bad == "" {
+			r.OkNT(key, p.Pos(g.Pos()), fmt.Sprintf("written after initialisation; all %d access(es) are made while a package-level mutex is held, and what it refers to is reachable through it only", len(accesses)))
 		} else {
 			extra := ""
 			if isStdNamed(deref(g.Type()), "sync", "Pool") || isStdNamed(deref(g.Type()), "sync", "Map") {
@@ -1159,6 +1232,11 @@ func earlyExit(rs *ast.RangeStmt) ast.Node {
 // collected elements, by element type.
 var injectiveReads = map[string][]string{
 	"object.HashPair": {"Inspect", "Type"}, // printed form plus type identifies a hashable key
+	// a key of a host map, ordered by its printed form (fmt's %v) and its
+	// type: keys that agree on both are converted to the same object, so
+	// which of them comes first is of no consequence (NaN keys and keys that
+	// print an address aside)
+	"reflect.Value": {"Sprintf", "Type"},
 	// (the printed form of a syntax node does NOT identify it: "a<newline>" and
 	// "a\\n" print alike — an entry that used to be here for ast.Expression was
 	// wrong, see F30)
@@ -1178,6 +1256,56 @@ func ruleMapOrder(p *Program, r *Reporter) {
 					return true
 				}
 				stack = append(stack, n)
+				if as, ok := n.(*ast.AssignStmt); ok && len(as.Lhs) == 1 && len(as.Rhs) == 1 {
+					// keys := v.MapKeys(): the slice is in map order until it is sorted
+					if ce, ok := ast.Unparen(as.Rhs[0]).(*ast.CallExpr); ok {
+						if fobj, ok := calleeObj(info, ce).(*types.Func); ok && fobj.Name() == "MapKeys" && fobj.Pkg() != nil && fobj.Pkg().Path() == "reflect" {
+							var fnName string
+							var block []ast.Stmt
+							for i := len(stack) - 2; i >= 0; i-- {
+								switch x := stack[i].(type) {
+								case *ast.BlockStmt:
+									if block == nil {
+										block = x.List
+									}
+								case *ast.CaseClause:
+									if block == nil {
+										block = x.Body
+									}
+								case *ast.FuncDecl:
+									if fnName == "" {
+										fnName = shortPkg(pk.PkgPath) + "." + x.Name.Name
+										if x.Recv != nil && len(x.Recv.List) > 0 {
+											fnName = shortPkg(pk.PkgPath) + ".(" + exprStr(x.Recv.List[0].Type) + ")." + x.Name.Name
+										}
+									}
+								}
+							}
+							key := "map keys in " + fnName + " taken from " + exprStr(as.Rhs[0])
+							id, isID := as.Lhs[0].(*ast.Ident)
+							var target types.Object
+							if isID {
+								if target = info.Defs[id]; target == nil {
+									target = info.Uses[id]
+								}
+							}
+							if target == nil {
+								r.Fail(key, p.Pos(as.Pos()), "the keys of a map are stored where their use cannot be followed; they are in map-iteration order")
+								return true
+							}
+							class, detail := sortedAfter(p, info, as, block, target)
+							switch class {
+							case "collected-then-sorted":
+								r.OkNT(key, p.Pos(as.Pos()), class+": "+detail)
+							case "sorted-not-total":
+								r.Fail(key, p.Pos(as.Pos()), "the keys are sorted, but the comparator is not a total order on them ("+detail+"): keys that compare equal stay in map-iteration order, which differs from run to run")
+							default:
+								r.Fail(key, p.Pos(as.Pos()), "the keys of a map are used in map-iteration order ("+detail+"): what is done with them in turn — which of two entries that collide is kept, say — differs from run to run")
+							}
+						}
+					}
+					return true
+				}
 				rs, ok := n.(*ast.RangeStmt)
 				if !ok {
 					return true
@@ -1271,6 +1399,128 @@ func printedFormKey(info *types.Info, e ast.Expr) string {
 	return why
 }
 
+// notTheIterationKey: the key of an insertion made by the body of a range over
+// a map is the iteration key itself (or, over reflect's MapKeys, that key taken
+// out of its reflect.Value unchanged: Interface(), String(), an assertion or a
+// conversion of those) — distinct entries are then stored under distinct keys.
+// Anything computed from it (a prefix cut off, a case folded, a conversion
+// that rounds) may send two entries to one key.  Keys that do not depend on
+// the iteration at all are not the concern here.  "" when fine.
+func notTheIterationKey(info *types.Info, rs *ast.RangeStmt, idx ast.Expr) string {
+	iter := map[types.Object]bool{}
+	for _, e := range []ast.Expr{rs.Key, rs.Value} {
+		if id, ok := e.(*ast.Ident); ok && info.Defs[id] != nil {
+			iter[info.Defs[id]] = true
+		}
+	}
+	// over MapKeys() the key is the *value* variable of the range
+	var isKey func(e ast.Expr, depth int) bool
+	var bad string
+	isKey = func(e ast.Expr, depth int) bool {
+		if depth > 6 {
+			return false
+		}
+		switch x := ast.Unparen(e).(type) {
+		case *ast.Ident:
+			obj := info.Uses[x]
+			if iter[obj] {
+				return true
+			}
+			// a local defined in the body by one assignment
+			var def ast.Expr
+			n := 0
+			ast.Inspect(rs.Body, func(m ast.Node) bool {
+				if as, ok := m.(*ast.AssignStmt); ok {
+					for i, l := range as.Lhs {
+						if id, ok := l.(*ast.Ident); ok && (info.Defs[id] == obj || info.Uses[id] == obj) && obj != nil {
+							n++
+							if len(as.Lhs) == len(as.Rhs) {
+								def = as.Rhs[i]
+							} else if i == 0 && len(as.Rhs) == 1 {
+								def = as.Rhs[0] // v, ok := x.(T)
+							} else {
+								def = nil
+							}
+						}
+					}
+				}
+				return true
+			})
+			if n == 1 && def != nil {
+				return isKey(def, depth+1)
+			}
+			return false
+		case *ast.TypeAssertExpr:
+			return isKey(x.X, depth+1)
+		case *ast.CallExpr:
+			if tv, ok := info.Types[x.Fun]; ok && tv.IsType() && len(x.Args) == 1 {
+				// string(k), T(k): only identity-like conversions between string types
+				if b, ok := tv.Type.Underlying().(*types.Basic); ok && b.Kind() == types.String {
+					if at, ok := info.Types[x.Args[0]]; ok {
+						if ab, ok := at.Type.Underlying().(*types.Basic); ok && ab.Kind() == types.String {
+							return isKey(x.Args[0], depth+1)
+						}
+					}
+				}
+				return false
+			}
+			if sel, ok := x.Fun.(*ast.SelectorExpr); ok && len(x.Args) == 0 {
+				if fobj, ok := calleeObj(info, x).(*types.Func); ok && fobj.Pkg() != nil && fobj.Pkg().Path() == "reflect" && (fobj.Name() == "Interface" || fobj.Name() == "String") {
+					return isKey(sel.X, depth+1)
+				}
+			}
+			return false
+		}
+		return false
+	}
+	// does the index depend on the iteration at all?
+	depends := false
+	var dep func(e ast.Node, depth int)
+	dep = func(e ast.Node, depth int) {
+		if depth > 6 {
+			return
+		}
+		ast.Inspect(e, func(m ast.Node) bool {
+			id, ok := m.(*ast.Ident)
+			if !ok {
+				return true
+			}
+			obj := info.Uses[id]
+			if obj == nil {
+				return true
+			}
+			if iter[obj] {
+				depends = true
+				return false
+			}
+			ast.Inspect(rs.Body, func(k ast.Node) bool {
+				if as, ok := k.(*ast.AssignStmt); ok {
+					for i, l := range as.Lhs {
+						if lid, ok := l.(*ast.Ident); ok && info.Defs[lid] == obj {
+							if len(as.Lhs) == len(as.Rhs) {
+								dep(as.Rhs[i], depth+1)
+							} else if len(as.Rhs) == 1 {
+								dep(as.Rhs[0], depth+1)
+							}
+						}
+					}
+				}
+				return true
+			})
+			return true
+		})
+	}
+	dep(idx, 0)
+	if !depends {
+		return ""
+	}
+	if isKey(idx, 0) {
+		return ""
+	}
+	_ = bad
+	return "computed from the iteration key (" + exprStr(idx) + "), not the key itself"
+}
+
 // classifyMapLoop inspects the body of a range over a map.
 func classifyMapLoop(p *Program, info *types.Info, rs *ast.RangeStmt, block []ast.Stmt) (string, string) {
 	declared := map[types.Object]bool{}
@@ -1305,6 +1555,10 @@ func classifyMapLoop(p *Program, info *types.Info, rs *ast.RangeStmt, block []as
 								// object does not identify it
 								if why := printedFormKey(info, lx.Index); why != "" {
 									other = "insertion under a key that is " + why + " — entries that print alike overwrite each other, last one in map order wins"
+									continue
+								}
+								if why := notTheIterationKey(info, rs, lx.Index); why != "" {
+									other = "insertion under a key that is " + why + " — two entries of the map that is walked may be stored under one key, and the one walked last wins"
 									continue
 								}
 								inserts++
@@ -1381,13 +1635,13 @@ func classifyMapLoop(p *Program, info *types.Info, rs *ast.RangeStmt, block []as
 	return "other", "mixes appends and map insertions"
 }
 
-func sortedAfter(p *Program, info *types.Info, rs *ast.RangeStmt, block []ast.Stmt, target types.Object) (string, string) {
+func sortedAfter(p *Program, info *types.Info, rs ast.Stmt, block []ast.Stmt, target types.Object) (string, string) {
 	if block == nil {
 		return "other", "cannot find the enclosing block"
 	}
 	idx := -1
 	for i, st := range block {
-		if st == ast.Stmt(rs) {
+		if st == rs {
 			idx = i
 		}
 	}
@@ -1477,6 +1731,29 @@ func comparatorTotal(p *Program, info *types.Info, sliceArg ast.Expr, fl *ast.Fu
 		return "other", "cannot find the comparator"
 	}
 	reads := map[string]bool{}
+	// what a helper of the module that the comparator calls reads counts as read
+	// by the comparator (one level)
+	var bodies []ast.Node
+	ast.Inspect(body, func(n ast.Node) bool {
+		if ce, ok := n.(*ast.CallExpr); ok {
+			if fobj, ok := calleeObj(info, ce).(*types.Func); ok && fobj.Pkg() != nil && strings.HasPrefix(fobj.Pkg().Path(), Mod) {
+				if fd := funcDeclOf(p, fobj); fd != nil && fd.Body != nil {
+					bodies = append(bodies, fd.Body)
+				}
+			}
+		}
+		return true
+	})
+	for _, hb := range bodies {
+		ast.Inspect(hb, func(n ast.Node) bool {
+			if ce, ok := n.(*ast.CallExpr); ok {
+				if sel, ok := ce.Fun.(*ast.SelectorExpr); ok {
+					reads[sel.Sel.Name] = true
+				}
+			}
+			return true
+		})
+	}
 	ast.Inspect(body, func(n ast.Node) bool {
 		if ce, ok := n.(*ast.CallExpr); ok {
 			if sel, ok := ce.Fun.(*ast.SelectorExpr); ok {
